@@ -23,9 +23,11 @@ use bitcoin::key::{TapTweak, XOnlyPublicKey};
 use bitcoin::opcodes::all as op;
 use bitcoin::script::Builder;
 use bitcoin::secp256k1::{self, Parity, Secp256k1, SecretKey};
-use bitcoin::taproot::{ControlBlock, LeafVersion, TapLeafHash, TapNodeHash};
+use bitcoin::bip32::{ChildNumber, Xpriv, Xpub};
+use bitcoin::taproot::{ControlBlock, LeafVersion, TapLeafHash, TapNodeHash, TaprootBuilder};
 use bitcoin::ScriptBuf;
-use miniscript::descriptor::TapTree;
+use miniscript::descriptor::{DerivationResult, TapTree};
+use miniscript::DescriptorPublicKey;
 use miniscript::{
     Descriptor, FromStrKey, Miniscript, MiniscriptKey, RelLockTime, Tap, Terminal, Threshold,
     ToPublicKey, Translator,
@@ -261,9 +263,9 @@ struct LeafSpec {
 const KIND_NAMES: [&str; 5] = ["pk", "and_v(v:pk,older)", "multi_a(1,2)", "and_v(v:pk,pk)", "or_d(pk,pk)"];
 
 /// the leaf script, written directly with bitcoin's script builder (oracle side)
-fn leaf_script(s: &LeafSpec, shift: usize) -> ScriptBuf {
-    let a = xonly(s.k1 + shift);
-    let b = xonly(s.k2 + shift);
+fn leaf_script(s: &LeafSpec, keyx: &dyn Fn(usize) -> XOnlyPublicKey) -> ScriptBuf {
+    let a = keyx(s.k1);
+    let b = keyx(s.k2);
     let bld = Builder::new();
     match s.kind {
         0 => bld.push_x_only_key(&a).push_opcode(op::OP_CHECKSIG),
@@ -305,17 +307,17 @@ fn leaf_string(s: &LeafSpec, key: &dyn Fn(usize) -> String) -> String {
     }
 }
 /// the leaf as a Miniscript AST built bottom-up (independent of every string parser)
-fn leaf_ms<Pk: HKey>(s: &LeafSpec) -> Miniscript<Pk, Tap> {
+fn leaf_ms<Pk: MiniscriptKey>(s: &LeafSpec, of: &dyn Fn(usize) -> Pk) -> Miniscript<Pk, Tap> {
     let ms = |t: Terminal<Pk, Tap>| Arc::new(Miniscript::from_ast(t).expect("well-typed leaf"));
-    let pk = |i: usize| ms(Terminal::Check(ms(Terminal::PkK(Pk::of(i)))));
+    let pk = |i: usize| ms(Terminal::Check(ms(Terminal::PkK(of(i)))));
     let vpk = |i: usize| ms(Terminal::Verify(pk(i)));
     let t = match s.kind {
-        0 => Terminal::Check(ms(Terminal::PkK(Pk::of(s.k1)))),
+        0 => Terminal::Check(ms(Terminal::PkK(of(s.k1)))),
         1 => Terminal::AndV(
             vpk(s.k1),
             ms(Terminal::Older(RelLockTime::from_height(s.n as u16).expect("nonzero height"))),
         ),
-        2 => Terminal::MultiA(Threshold::new(1, vec![Pk::of(s.k1), Pk::of(s.k2)]).expect("threshold")),
+        2 => Terminal::MultiA(Threshold::new(1, vec![of(s.k1), of(s.k2)]).expect("threshold")),
         3 => Terminal::AndV(vpk(s.k1), pk(s.k2)),
         _ => Terminal::OrD(pk(s.k1), pk(s.k2)),
     };
@@ -331,6 +333,8 @@ struct Case {
     shape: T,
     leaves: Vec<LeafSpec>,
     to_coq: bool,
+    /// build through the API with ONE Arc<Miniscript> per distinct leaf, cloned into every position
+    share: bool,
 }
 impl Case {
     fn spec(&self) -> String {
@@ -338,13 +342,14 @@ impl Case {
         self.shape.shape_str(&mut sh);
         let lv: Vec<String> =
             self.leaves.iter().map(|l| format!("{}:{}:{}:{}", l.kind, l.k1, l.k2, l.n)).collect();
-        format!("ik={};kt={};shape={};leaves={}", self.ik, self.kt, sh, lv.join(","))
+        format!("ik={};kt={};shape={};leaves={}{}", self.ik, self.kt, sh, lv.join(","), if self.share { ";share=1" } else { "" })
     }
     fn from_spec(s: &str) -> Option<Case> {
         let mut ik = None;
         let mut kt = 'c';
         let mut shape = None;
         let mut leaves = Vec::new();
+        let mut share = false;
         for part in s.split(';') {
             let (k, v) = part.split_once('=')?;
             match k {
@@ -374,6 +379,7 @@ impl Case {
                         });
                     }
                 }
+                "share" => share = v == "1",
                 _ => return None,
             }
         }
@@ -381,7 +387,7 @@ impl Case {
         if shape.n_leaves() != leaves.len() {
             return None;
         }
-        Some(Case { family: "replay", ik: ik?, kt, shape, leaves, to_coq: true })
+        Some(Case { family: "replay", ik: ik?, kt, shape, leaves, to_coq: true, share })
     }
     /// label of leaf i = index of the first leaf with the same spec (repeated leaves share a label)
     fn label(&self, i: usize) -> usize {
@@ -403,7 +409,24 @@ fn mk_case(family: &'static str, mut shape: T, ik: usize, kt: char, rng: &mut Rn
             leaves.push(spec);
         }
     }
-    Case { family, ik, kt, shape, leaves, to_coq }
+    Case { family, ik, kt, shape, leaves, to_coq, share: false }
+}
+/// a case whose leaves repeat according to `rep` (rep[i] <= i: position i holds the same leaf as
+/// position rep[i]) and whose API build shares one Arc per distinct leaf
+fn mk_shared(family: &'static str, shape: T, ik: usize, kt: char, rng: &mut Rng, rep: &[usize], to_coq: bool) -> Case {
+    let mut c = mk_case(family, shape, ik, kt, rng, false, to_coq);
+    for i in 0..c.leaves.len() {
+        let kind = [0u8, 0, 1, 2, 3, 4][rng.below(6)];
+        c.leaves[i].kind = kind;
+    }
+    for i in 0..c.leaves.len() {
+        let r = rep[i];
+        if r < i {
+            c.leaves[i] = c.leaves[r];
+        }
+    }
+    c.share = true;
+    c
 }
 
 // ------------------------------------------------------------------ oracle (BIP341, bitcoin primitives only)
@@ -428,13 +451,13 @@ fn oracle_rec(
     t: &T,
     depth: usize,
     case: &Case,
-    shift: usize,
+    keyx: &dyn Fn(usize) -> XOnlyPublicKey,
     leaves: &mut Vec<ExpLeaf>,
     branches: &mut Vec<([u8; 32], [u8; 32], [u8; 32])>,
 ) -> TapNodeHash {
     match t {
         T::L(i) => {
-            let script = leaf_script(&case.leaves[*i], shift);
+            let script = leaf_script(&case.leaves[*i], keyx);
             let lh = TapLeafHash::from_script(&script, LeafVersion::TapScript);
             leaves.push(ExpLeaf {
                 script: script.to_bytes(),
@@ -447,9 +470,9 @@ fn oracle_rec(
         }
         T::N(a, b) => {
             let lo = leaves.len();
-            let ha = oracle_rec(a, depth + 1, case, shift, leaves, branches);
+            let ha = oracle_rec(a, depth + 1, case, keyx, leaves, branches);
             let mid = leaves.len();
-            let hb = oracle_rec(b, depth + 1, case, shift, leaves, branches);
+            let hb = oracle_rec(b, depth + 1, case, keyx, leaves, branches);
             let hi = leaves.len();
             for l in &mut leaves[lo..mid] {
                 l.path.push(hb.to_byte_array());
@@ -470,15 +493,18 @@ fn tree_string(t: &T, case: &Case, key: &dyn Fn(usize) -> String) -> String {
     }
 }
 fn oracle<Pk: HKey>(case: &Case, shift: usize) -> Exp {
+    oracle_k(case, &|i| xonly(i + shift), &|i| Pk::of(i + shift).to_string())
+}
+/// BIP341 over the harness's own tree, for an arbitrary assignment of keys to key indices
+fn oracle_k(case: &Case, keyx: &dyn Fn(usize) -> XOnlyPublicKey, key: &dyn Fn(usize) -> String) -> Exp {
     let secp = Secp256k1::verification_only();
     let mut leaves = Vec::new();
     let mut branches = Vec::new();
-    let root = oracle_rec(&case.shape, 0, case, shift, &mut leaves, &mut branches);
-    let internal = xonly(case.ik + shift);
+    let root = oracle_rec(&case.shape, 0, case, keyx, &mut leaves, &mut branches);
+    let internal = keyx(case.ik);
     let (okey, parity) = internal.tap_tweak(&secp, Some(root));
     let spk = Builder::new().push_opcode(op::OP_PUSHNUM_1).push_slice(okey.serialize()).into_script();
-    let key = |i: usize| Pk::of(i + shift).to_string();
-    let body = format!("tr({},{})", key(case.ik), tree_string(&case.shape, case, &key));
+    let body = format!("tr({},{})", key(case.ik), tree_string(&case.shape, case, key));
     Exp {
         leaves,
         root: root.to_byte_array(),
@@ -488,6 +514,30 @@ fn oracle<Pk: HKey>(case: &Case, shift: usize) -> Exp {
         spk: spk.to_bytes(),
         branches,
         body,
+    }
+}
+/// second opinion on the oracle itself: rust-bitcoin's TaprootBuilder fed with the (depth, script)
+/// sequence of the harness's tree must give the same root, output key and parity
+fn taproot_builder_agrees(e: &Exp) -> bool {
+    let secp = Secp256k1::verification_only();
+    let mut b = TaprootBuilder::new();
+    for l in &e.leaves {
+        b = match b.add_leaf(l.depth as u8, ScriptBuf::from_bytes(l.script.clone())) {
+            Ok(b) => b,
+            Err(_) => return false,
+        };
+    }
+    let internal = match XOnlyPublicKey::from_slice(&e.internal) {
+        Ok(k) => k,
+        Err(_) => return false,
+    };
+    match b.finalize(&secp, internal) {
+        Ok(si) => {
+            si.merkle_root().map(|r| r.to_byte_array()) == Some(e.root)
+                && si.output_key().serialize() == e.okey
+                && (if si.output_key_parity() == Parity::Odd { 1 } else { 0 }) == e.parity
+        }
+        Err(_) => false,
     }
 }
 fn exp_cb_bytes(e: &Exp, l: &ExpLeaf) -> Vec<u8> {
@@ -517,7 +567,7 @@ struct Obs {
     spk: Vec<u8>,
     printed: String,
 }
-fn observe<Pk: HKey>(d: &Descriptor<Pk>) -> Result<Obs, String> {
+fn observe<Pk: MiniscriptKey + ToPublicKey>(d: &Descriptor<Pk>) -> Result<Obs, String> {
     catch_unwind(AssertUnwindSafe(|| {
         let tr = match d {
             Descriptor::Tr(tr) => tr,
@@ -650,12 +700,23 @@ fn err_class(e: &miniscript::Error) -> &'static str {
         _ => "OtherError",
     }
 }
-fn api_tree<Pk: HKey>(t: &T, case: &Case) -> Result<TapTree<Pk>, &'static str> {
+type ArcMap<Pk> = HashMap<usize, Arc<Miniscript<Pk, Tap>>>;
+/// `arcs` (used when case.share): one allocation per distinct leaf, the SAME Arc cloned into
+/// every position that holds that leaf, as a caller re-using a script value would do
+fn api_tree<Pk: MiniscriptKey>(t: &T, case: &Case, of: &dyn Fn(usize) -> Pk, arcs: &mut ArcMap<Pk>) -> Result<TapTree<Pk>, &'static str> {
     match t {
-        T::L(i) => Ok(TapTree::leaf(Arc::new(leaf_ms::<Pk>(&case.leaves[*i])))),
+        T::L(i) => {
+            if case.share {
+                let lab = case.label(*i);
+                let a = arcs.entry(lab).or_insert_with(|| Arc::new(leaf_ms::<Pk>(&case.leaves[*i], of)));
+                Ok(TapTree::leaf(Arc::clone(a)))
+            } else {
+                Ok(TapTree::leaf(Arc::new(leaf_ms::<Pk>(&case.leaves[*i], of))))
+            }
+        }
         T::N(a, b) => {
-            let x = api_tree(a, case)?;
-            let y = api_tree(b, case)?;
+            let x = api_tree(a, case, of, arcs)?;
+            let y = api_tree(b, case, of, arcs)?;
             TapTree::combine(x, y).map_err(|_| "DepthError")
         }
     }
@@ -663,7 +724,7 @@ fn api_tree<Pk: HKey>(t: &T, case: &Case) -> Result<TapTree<Pk>, &'static str> {
 /// Ok(descriptor) | Err(class) ; panics are class "Panic:<msg>"
 fn build_api<Pk: HKey>(case: &Case) -> Result<Descriptor<Pk>, String> {
     catch_unwind(AssertUnwindSafe(|| {
-        let tree = api_tree::<Pk>(&case.shape, case).map_err(|c| c.to_string())?;
+        let tree = api_tree::<Pk>(&case.shape, case, &|i| Pk::of(i), &mut HashMap::new()).map_err(|c| c.to_string())?;
         Descriptor::new_tr(Pk::of(case.ik), Some(tree)).map_err(|e| err_class(&e).to_string())
     }))
     .unwrap_or_else(|p| Err(format!("Panic:{}", panic_msg(&p))))
@@ -853,6 +914,9 @@ fn run_case<Pk: HKey>(case: &Case, out: &mut Out) {
             }
             out.cbs_verified += 1;
         }
+        if !taproot_builder_agrees(&e) || !taproot_builder_agrees(&e_shift) {
+            out.violation("oracle-self-check", "rust-bitcoin's TaprootBuilder disagrees with the harness oracle on root / output key".into(), &spec);
+        }
     }
 
     let mut variants: Vec<(&'static str, Result<Descriptor<Pk>, String>, bool)> = Vec::new();
@@ -1011,6 +1075,119 @@ fn pack(st: &[u64]) -> String {
         words.push(w.to_string());
     }
     format!("({}, [{}])", st.len(), words.join(";"))
+}
+
+// ------------------------------------------------------------------ wildcard xpub keys: derive_at_index / derived_descriptor
+thread_local! {
+    static DKEYS: RefCell<HashMap<(usize, u32), secp256k1::PublicKey>> = RefCell::new(HashMap::new());
+}
+fn xpub() -> Xpub {
+    thread_local! { static XP: RefCell<Option<Xpub>> = RefCell::new(None); }
+    if let Some(x) = XP.with(|x| *x.borrow()) {
+        return x;
+    }
+    let x = xpub_compute();
+    XP.with(|c| *c.borrow_mut() = Some(x));
+    x
+}
+fn xpub_compute() -> Xpub {
+    let secp = Secp256k1::new();
+    let seed = sha256::Hash::hash(b"verif-c15-xpub-seed");
+    let xprv = Xpriv::new_master(bitcoin::Network::Bitcoin, seed.as_byte_array()).expect("master key");
+    Xpub::from_priv(&secp, &xprv)
+}
+/// key `xpub/i/j` computed with bitcoin::bip32 only (oracle side)
+fn dkey(xp: &Xpub, i: usize, j: u32) -> secp256k1::PublicKey {
+    DKEYS.with(|k| {
+        if let Some(p) = k.borrow().get(&(i, j)) {
+            return *p;
+        }
+        let secp = Secp256k1::verification_only();
+        let path = [ChildNumber::Normal { index: i as u32 }, ChildNumber::Normal { index: j }];
+        let p = xp.derive_pub(&secp, &path).expect("unhardened derivation").public_key;
+        k.borrow_mut().insert((i, j), p);
+        p
+    })
+}
+fn dpk(xp: &Xpub, i: usize) -> DescriptorPublicKey {
+    thread_local! { static DPKS: RefCell<HashMap<usize, DescriptorPublicKey>> = RefCell::new(HashMap::new()); }
+    DPKS.with(|k| {
+        k.borrow_mut()
+            .entry(i)
+            .or_insert_with(|| DescriptorPublicKey::from_str(&format!("{}/{}/*", xp, i)).expect("descriptor key"))
+            .clone()
+    })
+}
+fn judge_variant<Pk: MiniscriptKey + ToPublicKey>(name: &str, d: Result<Descriptor<Pk>, String>, ex: &Exp, case: &Case, spec: &str, out: &mut Out) {
+    out.variants += 1;
+    match d {
+        Err(c) => {
+            let key = if c.starts_with("Panic") { "oracle:panic" } else { "oracle:rejected-valid-tree" };
+            out.violation(key, format!("[{}] tree of height {} with {} leaves: {}", name, case.shape.height(), case.leaves.len(), c), spec);
+        }
+        Ok(d) => match observe(&d) {
+            Err(p) => out.violation("oracle:panic", format!("[{}] panic while computing spend info / iterating: {}", name, p), spec),
+            Ok(o) => {
+                out.leaves_judged += o.si_leaves.len();
+                for (cat, what) in judge(&o, ex) {
+                    out.violation(&format!("oracle:{}", cat), format!("[{}] {}", name, what), spec);
+                }
+            }
+        },
+    }
+}
+/// the same tree over wildcard keys `xpub/i/*`, built through the API (sharing Arcs when
+/// case.share) and parsed, then derived with derive_at_index and derived_descriptor; the
+/// results are judged against BIP341 over the harness's tree with keys derived by bitcoin::bip32
+fn run_dpk(case: &Case, out: &mut Out) {
+    if case.shape.height() > 128 {
+        return;
+    }
+    let spec = case.spec();
+    let xp = xpub();
+    *out.kt_hist.entry("xpub/i/*".to_string()).or_insert(0) += 1;
+    let secp = Secp256k1::verification_only();
+    let of = |i: usize| dpk(&xp, i);
+    let built: Result<Descriptor<DescriptorPublicKey>, String> = catch_unwind(AssertUnwindSafe(|| {
+        let tree = api_tree::<DescriptorPublicKey>(&case.shape, case, &of, &mut HashMap::new()).map_err(|c| c.to_string())?;
+        Descriptor::new_tr(of(case.ik), Some(tree)).map_err(|e| err_class(&e).to_string())
+    }))
+    .unwrap_or_else(|p| Err(format!("Panic:{}", panic_msg(&p))));
+    let text = format!("tr({},{})", of(case.ik), tree_string(&case.shape, case, &|i| of(i).to_string()));
+    let parsed: Result<Descriptor<DescriptorPublicKey>, String> =
+        catch_unwind(AssertUnwindSafe(|| Descriptor::<DescriptorPublicKey>::from_str(&text).map_err(|e| err_class(&e).to_string())))
+            .unwrap_or_else(|p| Err(format!("Panic:{}", panic_msg(&p))));
+    for (route, d) in [("api", built), ("parsed", parsed)] {
+        let d = match d {
+            Ok(d) => d,
+            Err(c) => {
+                out.violation("oracle:rejected-valid-tree", format!("[{} xpub keys] tree of height {}: {}", route, case.shape.height(), c), &spec);
+                continue;
+            }
+        };
+        let printed = catch_unwind(AssertUnwindSafe(|| d.to_string())).unwrap_or_default();
+        if printed.split('#').next() != Some(text.as_str()) {
+            out.violation("oracle:display", format!("[{} xpub keys] printed {} expected {}", route, shorten(&printed), shorten(&text)), &spec);
+        }
+        for j in [0u32, 9] {
+            let keyx = |i: usize| dkey(&xp, i, j).x_only_public_key().0;
+            let ex_def = oracle_k(case, &keyx, &|i| format!("{}/{}/{}", xp, i, j));
+            let ex_pk = oracle_k(case, &keyx, &|i| bitcoin::PublicKey::new(dkey(&xp, i, j)).to_string());
+            if !taproot_builder_agrees(&ex_def) {
+                out.violation("oracle-self-check", "rust-bitcoin's TaprootBuilder disagrees with the harness oracle on root / output key".into(), &spec);
+            }
+            let r1 = catch_unwind(AssertUnwindSafe(|| match d.derive_at_index(j) {
+                DerivationResult::Ok(x) => Ok(x),
+                DerivationResult::WithoutWildcard(_) => Err("WithoutWildcard".to_string()),
+                DerivationResult::Error(e) => Err(format!("DeriveError:{:?}", e)),
+            }))
+            .unwrap_or_else(|p| Err(format!("Panic:{}", panic_msg(&p))));
+            judge_variant(&format!("{}+derive_at_index({})", route, j), r1, &ex_def, case, &spec, out);
+            let r2 = catch_unwind(AssertUnwindSafe(|| d.derived_descriptor(&secp, j).map_err(|e| format!("DeriveError:{:?}", e))))
+                .unwrap_or_else(|p| Err(format!("Panic:{}", panic_msg(&p))));
+            judge_variant(&format!("{}+derived_descriptor({})", route, j), r2, &ex_pk, case, &spec, out);
+        }
+    }
 }
 
 // ------------------------------------------------------------------ malformed brace streams
@@ -1223,6 +1400,60 @@ pub fn run(args: &[String]) {
                 cases.push(mk_case("exhaustive-mixed", t, ik, kt, &mut rng, true, true));
             }
         }
+        // 1c. SHARED ALLOCATIONS: every shape with 2..=6 leaves, built through the API with one
+        // Arc<Miniscript> cloned into several positions: each DFS-adjacent pair (equal or different
+        // depths), each pair at distance 2, all positions, alternating, disjoint pairs, random runs
+        for n in 2..=6usize {
+            for t in all_shapes(n, &mut memo) {
+                let id: Vec<usize> = (0..n).collect();
+                let mut pats: Vec<Vec<usize>> = Vec::new();
+                for i in 0..n - 1 {
+                    let mut r = id.clone();
+                    r[i + 1] = i;
+                    pats.push(r);
+                }
+                for i in 0..n.saturating_sub(2) {
+                    let mut r = id.clone();
+                    r[i + 2] = i;
+                    pats.push(r);
+                }
+                pats.push(vec![0; n]);
+                if n >= 3 {
+                    pats.push((0..n).map(|i| i % 2).collect());
+                    pats.push((0..n).map(|i| i - i % 2).collect());
+                }
+                for _ in 0..2 {
+                    let mut r = id.clone();
+                    for i in 1..n {
+                        if rng.below(2) == 0 {
+                            r[i] = r[i - 1];
+                        }
+                    }
+                    pats.push(r);
+                }
+                for r in pats {
+                    let (ik, kt) = next_ik_kt(&mut n_case);
+                    cases.push(mk_shared("shared-arc", t.clone(), ik, kt, &mut rng, &r, true));
+                }
+            }
+        }
+        // 1d. random larger shapes with shared allocations (runs of adjacent repeats + far repeats)
+        let n_sh = if thorough { 600 } else { 120 };
+        for i in 0..n_sh {
+            let n = 7 + rng.below(58);
+            let t = rand_shape(&mut rng, n, i % 4);
+            let mut r: Vec<usize> = (0..n).collect();
+            for k in 1..n {
+                let x = rng.below(20);
+                if x < 7 {
+                    r[k] = r[k - 1];
+                } else if x < 9 {
+                    r[k] = r[rng.below(k)];
+                }
+            }
+            let (ik, kt) = next_ik_kt(&mut n_case);
+            cases.push(mk_shared("shared-arc-random", t, ik, kt, &mut rng, &r, i < 40));
+        }
         // 2. chains of every depth 1..=128 and 129 (rejection): left, right, zig-zag
         let coq_depths: Vec<usize> = if thorough {
             (1..=129).collect()
@@ -1265,11 +1496,16 @@ pub fn run(args: &[String]) {
     }
 
     let mut out = Out::default();
-    for c in &cases {
+    for (n, c) in cases.iter().enumerate() {
         if c.kt == 'x' {
             run_case::<XOnlyPublicKey>(c, &mut out);
         } else {
             run_case::<bitcoin::PublicKey>(c, &mut out);
+        }
+        // wildcard-key route (derive_at_index / derived_descriptor): every shared-allocation case
+        // and a sample of the others
+        if c.share || (n % 16 == 0 && c.leaves.len() <= 64) {
+            run_dpk(c, &mut out);
         }
     }
     if replay.is_none() {
